@@ -15,4 +15,5 @@ INIT Init
 NEXT Next
 CHECK_DEADLOCK FALSE
 INVARIANTS
+  Compose
   Dump
